@@ -1,14 +1,28 @@
 """C18 - joint counts are exact and mutual information obeys its algebraic laws."""
-from pyvc.runner import Run, resolve_failures
+from pyvc.runner import Run, Unit, resolve_failures
+from pyvc.front import Sources
+from pyvc import race
+from contracts import libinfo
+
+PYX = 'enspara/info_theory/libinfo.pyx'
+MUT = [('swapped-cell', PYX, "                jc[a_row, b_row, i, j] += 1", "                jc[a_row, b_row, j, i] += 1"),
+       ('negative-ids-unchecked', PYX, '    assert a.min() >= 0, "States indices must be non-negative."\n', ''),
+       ('wrong-column', PYX, "                j = b[t, b_row]", "                j = b[t, a_row]"),
+       ('length-check-dropped', PYX, "    assert a.shape[0] == b.shape[0], 'Feature arrays a and b must match in length'\n", '')]
 
 
 def run(tier, seed, update_lock=False):
     R = Run('C18', 'other', tier, seed)
+    u = Unit('joint-count-kernel', libinfo.registry(), mutants=MUT, budget=20)
+    R.prove(u)
+    R.canary_check(u)
+    mod = Sources().module(PYX)
+    R.static_obligations('prange', [('matrix_bincount2d/' + oid, ok, d) for oid, ok, d in race.check(mod.funcs['matrix_bincount2d'])])
     R.bounded('C18.py', 'run-time contracts (the statement) on the real joint_counts / mutual_information / weighted_mi / normalisation / entropy code',
               '<=3 features, <=3 states, <=6 frames; 8 integer dtypes; C/F/strided layouts; threads 1/4/16; rejected inputs (negative / too large ids, length mismatch)')
     R.report_known('C18.py')
-    resolve_failures(R, 'C18.py', lambda f: None)
-    R.clauses = [{'clause': 'joint-count tables are exact for every integer type, layout and thread count; out-of-range ids and length mismatches are rejected', 'status': 'bounded (kernel invariant as SMT obligations planned)'},
+    resolve_failures(R, 'C18.py', lambda f: {'key': 'matrix_bincount2d', 'inputs': f['model'], 'obligation': f['oid']})
+    R.clauses = [{'clause': 'joint-count tables are exact for every integer type, layout and thread count; out-of-range ids and length mismatches are rejected', 'status': 'proved for the desugared kernel matrix_bincount2d (SMT: bounds of all subscripts, exact counts by loop invariants over a ghost count function, AssertionError exactly for out-of-range ids / length mismatch, race-freedom of the prange loop); dtype x layout x threads sweep bounded'},
                  {'clause': 'MI: definition, non-negative, symmetric, diagonal = entropy, <= smaller marginal entropy, relabel / reorder invariance, pooled counts, weighted = unweighted, channel-capacity normalisation', 'status': 'bounded'},
                  {'clause': 'relative entropy non-negative, zero exactly for equal distributions', 'status': 'bounded'}]
-    return R.finish('Bounded stand-in in this run.', update_lock=update_lock)
+    return R.finish('Deductive: the compiled counting kernel (desugared). Bounded: dtype harmonisation in joint_counts and all information-theoretic laws.', update_lock=update_lock)
